@@ -213,7 +213,7 @@ def h_vi_vec_cut(Sn, An, am, maxit, from_zero=False):
             return inv_step(L)
         return inv(L)
     spec = CutSpec(inv=inv_dispatch, havoc=havoc, element=lambda L, it: (state.__setitem__('phase', 'back'), element(L, it))[1],
-                   exhausted=exhausted)
+                   exhausted=exhausted, iter_src='range(max_iterations)')
     f, text, info = cut(vi.value_iteration_vectorized, {0: spec}, dump_dir=DUMP)
     with patched((vi, dict(np=NP))):
         V, Q, i = f(Ta, g, Ra, am, state_values=V0a, max_residual=tol, max_iterations=maxit)
@@ -309,7 +309,7 @@ def h_vi_tab_cut(skel, gamma_kind, maxit):
             ghost['Vprev_next'] = dict(L['state_values'])
             state['phase'] = 'back'
             return ghost['k']
-        spec = CutSpec(inv=inv, havoc=havoc, element=element, exhausted=lambda L: S.eq(ghost['k'], maxit))
+        spec = CutSpec(inv=inv, havoc=havoc, element=element, exhausted=lambda L: S.eq(ghost['k'], maxit), iter_src='range(max_iterations)')
         f, text, info = cut(vi.value_iteration_tabular, {0: spec}, dump_dir=DUMP)
         V, Q, i = f(mdp, max_residual=tol, max_iterations=maxit)
         if state['phase'] == 'back':
